@@ -88,6 +88,16 @@ STR_ASSUMPTIONS = [
 ]
 
 
+BOX_ASSUMPTIONS = [
+    "std::boxed::Box (the oracle the property names) is correct",
+    "the Box model is ownership bookkeeping only: trait forwarding is decided by the differential, not by theorems",
+]
+
+
+def box_check(prop, tier, seed):
+    return engine_check(prop, tier, seed, B.box_run, B.BOX_MISMATCH_PROPS, BOX_ASSUMPTIONS, "box_driver", "box_check")
+
+
 def str_check(prop, tier, seed):
     return engine_check(prop, tier, seed, B.str_run, B.STR_MISMATCH_PROPS, STR_ASSUMPTIONS, "string_driver", "string_check")
 
@@ -209,6 +219,8 @@ def check(prop, tier, seed):
         return vec_check(prop, tier, seed)
     if prop in B.STR_PROPS:
         return str_check(prop, tier, seed)
+    if prop in B.BOX_PROPS:
+        return box_check(prop, tier, seed)
     print("no engine for %s" % prop, file=sys.stderr)
     return 2
 
